@@ -25,7 +25,8 @@ RULE = ("seeded batches of primitive calls (dimensions 1-6, magnitudes 1e-150..1
         "arrays, boxes built from a mesh's vertices, a mesh that is saved with ignore_elements) in which every call - returning or raising - "
         "is bracketed by the side-effect sentinel, each case starting from one of six numpy error configurations; a law batch is "
         "non-trivial when >= 10 law instances were judged; a sequence is non-trivial when a raising call is followed by a non-raising "
-        "one; distinct = distinct case descriptor hash")
+        "one; distinct = distinct case descriptor hash"
+        "; variants: points as (1,d) row slices in the box laws, nested operands and result identity, roots with normalize=False")
 REQUIRED = {
     "aabb": 1500, "contract": 3000, "contract/AABB.project": 300, "contract/AABB.distance": 300, "contract/AABB.union": 100,
     "contract/AABB.intersection": 100, "contract/AABB.do_intersect": 100, "contract/AABB.of_points": 50, "contract/AABB.of_mesh": 20,
